@@ -56,6 +56,10 @@ func cmdSeeds(args []string) int {
 			}
 			bases[prop] = b
 		}
+		if why, retired := m["retired"].(string); retired {
+			fmt.Printf("%-10s RETIRED %s\n", e.Name(), why)
+			continue
+		}
 		v := variant{Name: e.Name(), Kind: "mutant", Patch: filepath.Join("seeded", e.Name(), "patch.diff")}
 		ov, ok, why := overlayFor(v, repo, vd)
 		if !ok {
